@@ -73,6 +73,7 @@ static const char* kCurated[] = {
     "a: x !y",
     "a: x !y@0=1; b: a",
     "a: x; b: a !y; c: b y",
+    "a: x !y %collapse; b: a",
     // order-only and single-use edges
     "a: x; b: a/M y",
     "a: x; b: a/S y",
@@ -107,6 +108,11 @@ static const char* kCurated[] = {
     "a: x !y; b: a ?0=0>x; b': a/M y; c: b a",
     "a: x y %collapse; b: a !z@0=1 #cell; c: a/S b ?1=1>x",
 };
+
+static bool isCurated(const std::string& spec) {
+  for (auto* c : kCurated) if (spec == c) return true;
+  return false;
+}
 
 static std::vector<std::string> reqLists(const std::string& keys, int maxLen) {
   std::vector<std::string> out{""};
@@ -349,6 +355,46 @@ struct Explorer {
       res.sample("{\"world\": " + vj::q(w.spec) + ", \"mode\": " + vj::q(mode.name) + ", \"history\": " + vj::q(historyStr(frontier.back().h)) + "}");
   }
 
+  // Structured deep histories (beyond the BFS depth): build K, set any subset S of the leaves to 1, rebuild K and
+  // interrupt that build at EVERY step (cancellation) and at every database write (error), optionally restart, put
+  // back one leaf of S (or all of S), rebuild K. The last build is judged: an interrupted build must not leave behind
+  // a record that a later build takes to be up to date although its task saw the state before the reversal.
+  void abaPass() {
+    std::string leaves = w.leaves;
+    size_t n = leaves.size();
+    if (n == 0 || n > 4) return;
+    for (char K : w.derived) {
+      for (unsigned S = 1; S < (1u << n); ++S) {
+        if (args.overBudget()) { res.exhaustive = false; res.count("budget_hit"); return; }
+        History h;
+        { Event b; b.kind = 'b'; b.key = K; h.push_back(b); }
+        for (size_t i = 0; i < n; ++i) if (S >> i & 1) { Event e; e.kind = 's'; e.key = leaves[i]; e.val = 1; h.push_back(e); }
+        { Event b; b.kind = 'b'; b.key = K; h.push_back(b); }
+        RunOut base = run(h, false, false);
+        if (base.dead) continue;
+        std::vector<unsigned> backs;
+        for (size_t i = 0; i < n; ++i) if (S >> i & 1) backs.push_back(1u << i);
+        if (backs.size() > 1) backs.push_back(S);
+        int nint = base.last.steps + (cfg.useDB && !cfg.capi ? base.last.writes : 0);
+        for (int k = 1; k <= nint; ++k) {
+          History hi = h;
+          if (k <= base.last.steps) hi.back().cancelAt = k; else hi.back().failWriteAt = k - base.last.steps;
+          for (int restart = 0; restart <= (cfg.useDB ? 1 : 0); ++restart)
+            for (unsigned back : backs) {
+              History hh = hi;
+              if (restart) { Event r; r.kind = 'r'; hh.push_back(r); }
+              for (size_t i = 0; i < n; ++i) if (back >> i & 1) { Event e; e.kind = 's'; e.key = leaves[i]; e.val = 0; hh.push_back(e); }
+              { Event b; b.kind = 'b'; b.key = K; hh.push_back(b); }
+              RunOut o = run(hh);
+              res.count("aba_histories");
+              res.count("transitions");
+              if (!o.dead) outcomes.insert(o.last.orderFreeSummary());
+            }
+        }
+      }
+    }
+  }
+
   // C03(1): the same history with a restart inserted at every build boundary
   // performs the same executions and returns the same results.
   void checkSplit(const History& h, const RunOut& single) {
@@ -487,6 +533,7 @@ struct Explorer {
 
 // ---------------------------------------------------------------------------
 static void versionMatrix(const uv::World& w, vj::Result& res);
+static void capiVersionMatrix(const uv::World& w, vj::Result& res);
 static void lockMatrix(const uv::World& w, vj::Result& res);
 
 static void exploreWorld(const std::string& spec, const std::string& modeName, vj::Result& res) {
@@ -508,6 +555,7 @@ static void exploreWorld(const std::string& spec, const std::string& modeName, v
     return;
   }
   if (modeName == "@matrix") { versionMatrix(w, res); return; }
+  if (modeName == "@capiver") { capiVersionMatrix(w, res); return; }
   if (modeName == "@lock") { lockMatrix(w, res); return; }
   Mode_ m;
   if (!parseMode(modeName, m)) { fprintf(stderr, "bad mode %s\n", modeName.c_str()); exit(3); }
@@ -521,13 +569,16 @@ static void exploreWorld(const std::string& spec, const std::string& modeName, v
     // of the space (without a database C05 covers the same-engine case).
     bool withCancel = m.useDB && m.keyset == 0 && !m.syncDefault;
     if (!T) {
-      // quick tier: only the first dozen curated worlds carry a cancelled build (all of them in thorough)
+      // quick tier: only the first 13 curated worlds carry a cancelled build (all of them in thorough)
       int idx = -1;
       for (int i = 0; i < (int)(sizeof(kCurated) / sizeof(kCurated[0])); ++i) if (spec == kCurated[i]) idx = i;
-      if (idx < 0 || idx >= 12) withCancel = false;
+      if (idx < 0 || idx >= 13) withCancel = false;
     }
     if (m.depth) ex.bfs(m.depth + (T ? 1 : 0), 0, 0, false);
-    else ex.bfs(T ? 5 : 4, 1, withCancel ? 1 : 0, false);
+    else {
+      ex.bfs(T ? 5 : 4, 1, withCancel ? 1 : 0, false);
+      if (!m.syncDefault && m.keyset == 0 && isCurated(spec)) ex.abaPass();
+    }
   } else if (p == "C02") {
     ex.cfg.checkC01 = false; ex.cfg.checkProto = false; ex.cfg.checkC07 = false; ex.cfg.checkPersist = false;
     if (m.depth) ex.bfs(m.depth + (T ? 1 : 0), 0, 0, false);
@@ -543,6 +594,7 @@ static void exploreWorld(const std::string& spec, const std::string& modeName, v
   } else if (p == "C05") {
     ex.cfg.checkC02 = false; ex.cfg.checkProto = false; ex.cfg.checkC07 = false;
     ex.bfs(T ? 5 : 4, T ? 1 : 0, 1, false);
+    ex.abaPass();
   } else if (p == "C20") {
     ex.cfg.checkC02 = false; ex.cfg.checkProto = false; ex.cfg.checkC07 = false; ex.cfg.checkPersist = false;
     ex.cfg.hostileValues = true;
@@ -625,6 +677,49 @@ static std::string sh(const std::string& cmd) {
 }
 static std::string fileHash(const std::string& path) { return sh("md5sum '" + path + "' 2>/dev/null | cut -d' ' -f1"); }
 
+// C20: "database attachment with a schema version" has its documented effect through both interfaces: a database written
+// with client version v1 by one interface and attached with v2 by the other (or the same) is reused iff v1 == v2.
+static void capiVersionMatrix(const uv::World& w, vj::Result& res) {
+  std::string path = dbDir + "/capiver.db";
+  History h1, h2;
+  parseHistory("b b, s x 1, b b", h1);
+  parseHistory("s x 1, b b", h2);  // a new session starts from the initial external state
+  const uint32_t kV[] = {0, 1, 2, 0x7FFFFFFEu, 0x7FFFFFFFu, 0x80000000u, 0x9E3779B9u, 0xFFFFFFFFu};
+  for (int writer = 0; writer < 2; ++writer)
+    for (int reader = 0; reader < 2; ++reader)
+      for (uint32_t v1 : kV)
+        for (uint32_t v2 : kV) {
+          auto cfgFor = [&](int capi, uint32_t v, bool keep) {
+            Config c;
+            c.prop = "C20";
+            c.useDB = true; c.dbPath = path; c.clientVersion = v; c.capi = capi != 0; c.keepDB = keep;
+            c.checkC02 = false; c.checkProto = false; c.checkC07 = false; c.checkPersist = false;
+            return c;
+          };
+          std::string first, second;
+          {
+            vj::Result scratch;
+            Session s(w, cfgFor(writer, v1, false), scratch);
+            for (auto& ev : h1) { BuildObs o; s.apply(ev, &o); if (ev.kind == 'b') first = o.orderFreeSummary(); }
+          }
+          {
+            Session s(w, cfgFor(reader, v2, true), res);
+            s.replayPrefix = "@capiver|" + w.spec + "|";
+            for (auto& ev : h2) { BuildObs o; s.apply(ev, &o); if (ev.kind == 'b') second = o.orderFreeSummary(); }
+          }
+          res.count("capi_version_cells");
+          res.count("executions");
+          // reuse: nothing executes; discarded: every rule executes again
+          bool reused = second.find("{}") != std::string::npos;
+          char what[256];
+          snprintf(what, sizeof what, "database written through the %s interface with client version 0x%X, attached through the %s interface with 0x%X: the build %s (%s)",
+                   writer ? "C" : "C++", v1, reader ? "C" : "C++", v2, reused ? "reused the stored results" : "executed rules again", second.c_str());
+          std::string spec = "@capiver|" + w.spec + "|" + std::to_string(writer) + "," + std::to_string(reader) + "," + std::to_string(v1) + "," + std::to_string(v2);
+          if ((v1 == v2) != reused)
+            res.violate(v1 == v2 ? "C20.matching-schema-version-not-reused" : "C20.different-schema-version-reused", what, spec);
+        }
+}
+
 static void versionMatrix(const uv::World& w, vj::Result& res) {
   std::string path = dbDir + "/matrix.db";
   History h;
@@ -640,9 +735,11 @@ static void versionMatrix(const uv::World& w, vj::Result& res) {
     for (auto& ev : h) s.apply(ev);
   }
   S = atoi(sh("sqlite3 '" + path + "' 'SELECT version FROM info;'").c_str());
+  // client versions: small ones and the boundaries of the signed 32-bit column they are stored in
+  const uint32_t kClient[] = {0, 1, 2, 0x7FFFFFFFu, 0x80000000u, 0xFFFFFFFFu};
   for (int stored = 0; stored < 4; ++stored)        // 0: no info table, 1: S-1, 2: S, 3: S+1
-    for (uint32_t c = 0; c < 3; ++c)
-      for (uint32_t c2 = 0; c2 < 3; ++c2)
+    for (uint32_t c : kClient)
+      for (uint32_t c2 : kClient)
         for (int recreate = 0; recreate < 2; ++recreate) {
           ::unlink(path.c_str());
           {
@@ -796,6 +893,15 @@ int main(int argc, char** argv) {
     auto a = args.replaySpec.find('|');
     auto b = args.replaySpec.find('|', a + 1);
     std::string mode = args.replaySpec.substr(0, a), world = args.replaySpec.substr(a + 1, b - a - 1), hist = args.replaySpec.substr(b + 1);
+    if (!mode.empty() && mode[0] == '@' && mode.compare(0, 7, "@graphs") != 0) {
+      // the version / lock matrices are small: a replay re-runs the whole matrix and reports the cells that fail
+      exploreWorld(world, mode, res);
+      for (auto& v : res.violations) printf("violation %s: %s [%s]\n", v.cls.c_str(), v.what.c_str(), v.spec.c_str());
+      res.write(args.out);
+      std::string cmd = "rm -rf " + dbDir;
+      if (system(cmd.c_str()) != 0) {}
+      return res.violations.empty() ? 0 : 1;
+    }
     uv::World w;
     std::string err;
     Mode_ m;
@@ -847,6 +953,7 @@ int main(int argc, char** argv) {
       work.push_back({wd, "mem"});
       work.push_back({wd, "db"});
     }
+    work.push_back({"a: x; b: a y", "@capiver"});
   } else if (p == "C03") {
     for (auto& wd : worlds) work.push_back({wd, "db"});
     // (3) byte-string keys and values: hostile spellings of every key
